@@ -74,6 +74,17 @@ pub trait Wasm<ExecC, QueryC> {
         ensures r == self.query_sem(querier.snap(), storage.view(), *block, request);
     fn sudo(&self, api: &dyn Api, storage: &mut dyn Storage, router: &dyn CosmosRouter<ExecC, QueryC>, block: &BlockInfo, msg: WasmSudo) -> (r: AnyResult<AppResponse>)
         ensures (r, final(storage).view()) == self.sudo_sem(router, old(storage).view(), *block, msg);
+
+    // the storage accessors App forwards to (for WasmKeeper their content is proved in group wasm_call:
+    // C08.dump.own_window, C08.cs.window, C08.csm.window): functions of the store handed in and the address
+    spec fn dump_sem(&self, st: St, address: Addr) -> Seq<Record>;
+    spec fn cs_window(&self, st: St, address: Addr) -> St;
+    fn dump_wasm_raw(&self, storage: &dyn Storage, address: &Addr) -> (r: Vec<Record>)
+        ensures r@ == self.dump_sem(storage.view(), *address);
+    fn contract_storage<'a>(&self, storage: &'a dyn Storage, address: &Addr) -> (r: Box<dyn Storage + 'a>)
+        ensures r.view() == self.cs_window(storage.view(), *address);
+    fn contract_storage_mut<'a>(&self, storage: &'a mut dyn Storage, address: &Addr) -> (r: Box<dyn Storage + 'a>)
+        ensures r.view() == self.cs_window(old(storage).view(), *address);
 }
 
 // src/executor.rs: the Executor trait (only `execute` is abstract; helpers are default methods built on it)
